@@ -370,6 +370,9 @@ func (se *SessionExecutor) ExecuteCommand(cmd byte, data []byte) Response {
 		sql := string(data)
 		// handle phase
 		r, err := se.handleQuery(reqCtx, sql)
+		if err == errMultiStmtsAnswered {
+			return CreateNoopResponse()
+		}
 		if err != nil {
 			return CreateErrorResponse(se.status, err)
 		}
@@ -408,6 +411,9 @@ func (se *SessionExecutor) ExecuteCommand(cmd byte, data []byte) Response {
 		values := make([]byte, len(data))
 		copy(values, data)
 		r, err := se.handleStmtExecute(reqCtx, values)
+		if err == errMultiStmtsAnswered {
+			return CreateNoopResponse()
+		}
 		if err != nil {
 			return CreateErrorResponse(se.status, err)
 		}
